@@ -5,15 +5,17 @@ from common import BUILD, REPO, sh, env_with, Undecided
 import os, shutil
 
 LEVEL = "proof"
-TYPE_NAMES = ["Eq", "Fn", "Option", "Ordering", "Result", "Clone", "Default", "Hash", "Hasher", "H", "T", "Self_", "Some", "Ord", "PartialEq", "Sized", "Formatter"]
-FIELD_NAMES = ["this", "other", "state", "f", "rhs", "source", "lhs", "o", "to_index", "_eq", "_f", "r#type", "r#match", "r#fn", "l", "r", "_0", "_self_0", "_other_a", "__eq_"]
+TYPE_NAMES = ["Eq", "Fn", "Option", "Ordering", "Result", "Clone", "Default", "Hash", "Hasher", "H", "T", "Self_", "Some", "Ord", "PartialEq", "Sized", "Formatter",
+              # names the generator uses for its own parameters / locals (a tuple struct of that name is also a *value* in scope)
+              "source", "o", "rhs", "this", "other", "state", "f", "lhs", "to_index", "_this", "l", "r"]
+FIELD_NAMES = ["this", "other", "state", "f", "rhs", "source", "lhs", "o", "to_index", "_eq", "_f", "r#type", "r#match", "r#fn", "l", "r", "_0", "_self_0", "_other_a", "_Ref", "_a", "Xy", "__eq_"]
 VARIANT_NAMES = ["Some", "None", "Ok", "Err", "Equal", "Less", "Greater", "Self_", "Option", "Eq", "r#A", "This", "Ordering", "Default"]
 PARAM_NAMES = ["H", "T", "F", "Rhs", "Output", "Self_", "Eq", "Fn", "Option", "U", "r#T", "r#type", "r#fn"]
 SUBSETS = [["PartialEq"], ["PartialEq", "Eq"], ["PartialEq", "Eq", "PartialOrd", "Ord"], ["PartialEq", "Eq", "PartialOrd", "Ord", "Hash"], ["PartialEq", "Eq", "Hash"]]
 
 
 def tymap(ty):
-    return ty.replace("Option<", "::core::option::Option<")
+    return ty.replace("Option<", "::core::option::Option<").replace("bool", "::core::primitive::bool")
 
 
 def programs(ctx):
@@ -80,8 +82,8 @@ def run(ctx):
     n = 250 if ctx.quick else 4000
     cprogs = []
     for i in range(n):
-        names = {"X": rng.choice([t for t in TYPE_NAMES if t not in ("Option", "Sized")]), "T": rng.choice(["H", "T", "F", "Rhs", "Output", "U", "r#type", "r#fn", "r#struct"]), "N": rng.choice(["N", "M", "LEN", "r#match"]),
-                 "a": rng.choice(["'a", "'__b", "'b", "'r", "'state"]).replace("'__b", "'b"), "f": rng.sample(FIELD_NAMES[:16], 4), "v": rng.sample(VARIANT_NAMES, 4)}
+        names = {"X": rng.choice([t for t in TYPE_NAMES if t not in ("Option", "Sized")]), "T": rng.choice(["H", "T", "F", "Rhs", "Output", "U", "r#type", "r#fn", "r#struct"]), "N": rng.choice(["N", "M", "LEN", "r#match", "lhs", "to_index", "rhs", "source", "other", "state", "f", "this", "o", "_a"]),
+                 "a": rng.choice(["'a", "'__b", "'b", "'r", "'state"]).replace("'__b", "'b"), "f": rng.sample(FIELD_NAMES[:22], 4), "v": rng.sample(VARIANT_NAMES, 4)}
         if names["T"].replace("r#", "") == names["X"].replace("r#", ""):
             names["T"] = "U"
         cprogs.append(fam2.c20_prog("p_%04d" % i, rng, names=names))
